@@ -248,6 +248,7 @@ fn ref_option(d: &Act, t: &Option<S>) -> Option<Option<S>> {
 /// outcome for one key: Err(()) = refused; Ok(None) = entry absent afterwards
 fn ref_entry<D, T: Clone>(tns: usize, d: Option<&D>, t: Option<&T>, info: &dyn Fn(&D) -> &Act, names: &dyn Fn(&mut T) -> &mut NamesRow,
 	fresh: &dyn Fn(&S) -> T, child: &dyn Fn(&D, T) -> Result<T, ()>) -> Result<Option<T>, ()> {
+	if tns == 0 { if let Some(d) = d { if *info(d) != Act::None { return Err(()); } } } // the first namespace holds the keys
 	match (d, t) {
 		(None, t) => Ok(t.cloned()),
 		(Some(d), None) => match info(d) { Act::Add(b) => Ok(Some(child(d, fresh(b))?)), _ => Err(()) },
@@ -276,7 +277,7 @@ fn ref_map<K: Ord + Clone, D, T: Clone>(tns: usize, ds: &[D], ts: &[T], dkey: &d
 	Ok(out)
 }
 fn fresh_row(n: usize, tns: usize, first: Option<S>, b: &S) -> NamesRow { let mut r = vec![None; n]; r[0] = first; r[tns] = Some(b.clone()); r }
-/// reference apply for a target namespace index tns >= 1; None = the diff is inconsistent with the target
+/// reference apply; None = the diff is inconsistent with the target
 pub fn ref_apply(d: &DDiff, t: &MMappings, tns: usize) -> Option<MMappings> {
 	let n = t.ns.len();
 	let mut ns = t.ns.clone();
@@ -494,7 +495,8 @@ impl<'a> Run<'a> {
 		self.r.eval(&format!("A{}|{}|{}", g_diff(d), g_mappings(t), gstr(nsname)), got.is_some() && d.size() > 0);
 		self.r.count(if got.is_some() { "apply_ok" } else { "apply_err" });
 		match tns {
-			Some(tns) if tns >= 1 => {
+			Some(tns) => {
+				if tns == 0 { self.r.count("apply_first_namespace"); }
 				if !desync.is_empty() { self.r.violation(format!("apply_to produced a tree whose map keys differ from its entries: {}", desync[0]), format!("stream {stream}\n{}{}", show_diff(d), show_mappings(t))); }
 				let want = ref_apply(d, t, tns);
 				let same = match (&got, &want) { (Some(g), Some(w)) => g.equiv(w), (None, None) => true, _ => false };
@@ -507,7 +509,6 @@ impl<'a> Run<'a> {
 					self.r.violation(what.to_string(), format!("stream {stream}\ntarget namespace {:?} (index {tns})\n{}target:\n{}apply_to returned:\n{}the diff says:\n{}", show(nsname), show_diff(d), show_mappings(t), sh_res(&got), sh_res(&want)));
 				}
 			}
-			Some(_) => { self.r.count("apply_first_namespace"); if !desync.is_empty() { self.r.count("apply_first_namespace_desync"); } }
 			None => { self.r.count("apply_unknown_namespace"); if got.is_some() { self.r.violation("apply_to succeeded for a namespace the target does not have".into(), format!("{}{}", show_diff(d), show_mappings(t))); } }
 		}
 		if emit { self.r.case(stream, format!("CApply {} {} {} {}", g_diff(d), g_mappings(t), gstr(nsname), gres(got.as_ref().map(g_mappings)))); }
@@ -523,8 +524,17 @@ impl<'a> Run<'a> {
 		};
 		self.r.eval(&format!("P{}|{}", g_mappings(a), g_mappings(b)), d.is_some() && a.size() + b.size() > 0);
 		let gd = gres(d.as_ref().map(g_diff));
-		let mut emit_pair = |r: &mut Report, rr: Option<&Option<MMappings>>| {
-			if emit { r.case(stream, format!("CPair {} {} {} {} {}", g_mappings(a), g_mappings(b), gd, gstr(&a.ns[1]), gopt(rr.map(|x| gres(x.as_ref().map(g_mappings)))))); }
+		// the hypotheses of the theorems, evaluated here and (as Gallina booleans) inside Coq
+		let wf2 = |m: &MMappings| m.ns.len() == 2 && to_quill::<2, NsAny>(m).is_ok();
+		let h_inv = wf2(a) && wf2(b) && a.ns[0] != a.ns[1] && a.ns == b.ns && named(a) && named(b);
+		let h_f3 = f3_expected(a, b) != *b;
+		let h_txt = h_inv && textual_m(a) && textual_m(b) && a.doc == b.doc;
+		let h_f4 = has_empty_comment(a) || has_empty_comment(b);
+		let ghy = glist([h_inv, h_f3, h_txt, h_f4].into_iter().map(gbool));
+		if h_inv && !h_f3 { self.r.count("pair_in_hypotheses_of_inverse_theorem"); }
+		if h_txt && !h_f3 && !h_f4 { self.r.count("pair_in_hypotheses_of_text_theorem"); }
+		let emit_pair = |r: &mut Report, rr: Option<&Option<MMappings>>| {
+			if emit { r.case(stream, format!("CPair {} {} {} {} {} {}", g_mappings(a), g_mappings(b), gd, gstr(&a.ns[1]), gopt(rr.map(|x| gres(x.as_ref().map(g_mappings)))), ghy)); }
 		};
 		// diff fails exactly when the namespaces differ or a second-namespace name is missing
 		let should = a.ns == b.ns && named(a) && named(b);
@@ -539,7 +549,7 @@ impl<'a> Run<'a> {
 		let got = match impl_apply(&d, a, &nsname, &mut desync) { Ok(g) => g, Err(p) => { self.r.violation(format!("apply_to panicked: {p}"), replay(&show_diff(&d))); emit_pair(self.r, None); return; } };
 		let ok = got.as_ref().is_some_and(|g| g.equiv(b));
 		if ok { self.r.count("inverse_ok"); } else {
-			let f3 = got.as_ref().is_some_and(|g| g.equiv(&f3_expected(a, b)));
+			let f3 = h_f3 && got.as_ref().is_some_and(|g| g.equiv(&f3_expected(a, b)));
 			if f3 { self.r.count("inverse_known_F3"); self.r.known("F3 a parameter's first-namespace name is not carried by a diff".into()); }
 			else { self.r.violation("apply(diff(A,B),A) is not B".into(), replay(&format!("diff(A,B):\n{}apply(diff(A,B),A):\n{}", show_diff(&d), sh_res(&got)))); }
 		}
@@ -559,7 +569,7 @@ impl<'a> Run<'a> {
 		let mut desync = vec![];
 		let got2 = match impl_apply(&d2, a, &nsname, &mut desync) { Ok(g) => g, Err(p) => { self.r.violation(format!("apply_to panicked: {p}"), replay(&show_diff(&d2))); emit_pair(self.r, None); return; } };
 		let same = match (&got, &got2) { (Some(x), Some(y)) => x.equiv(y), (None, None) => true, _ => false };
-		if same { self.r.count("text_inverse_ok"); } else if has_empty_comment(a) || has_empty_comment(b) {
+		if same { self.r.count("text_inverse_ok"); } else if h_f4 {
 			self.r.count("text_inverse_known_F4"); self.r.known("F4 an empty comment is an absent cell in the .tinydiff text form".into());
 		} else {
 			self.r.violation("applying the diff read back from its text form differs from applying the diff itself".into(), replay(&format!("diff:\n{}text:\n{}\ndirect:\n{}through text:\n{}", show_diff(&d), show(&txt), sh_res(&got), sh_res(&got2))));
@@ -595,6 +605,12 @@ fn mname(s: &S) -> bool { *s == cps_str("<init>") || *s == cps_str("<clinit>") |
 fn cname(s: &S) -> bool { clean(s) && s.first() != Some(&('[' as u32)) && s.split(|&c| c == '/' as u32).all(|p| unq(&p.to_vec())) }
 fn act_all(a: &Act, f: &dyn Fn(&S) -> bool) -> bool { match a { Act::None => true, Act::Add(b) => f(b), Act::Rem(x) => f(x), Act::Edit(x, y) => f(x) && f(y) } }
 fn keys_distinct<K: Ord>(it: impl Iterator<Item = K>) -> bool { let v: Vec<K> = it.collect(); let n = v.len(); v.into_iter().collect::<BTreeSet<K>>().len() == n }
+fn textual_m(m: &MMappings) -> bool {
+	let n1 = |r: &NamesRow, f: &dyn Fn(&S) -> bool| r[1].as_ref().map_or(true, f);
+	m.classes.iter().all(|c| cname(c.names[0].as_ref().unwrap()) && n1(&c.names, &cname)
+		&& c.fields.iter().all(|f| clean(&f.desc) && unq(f.names[0].as_ref().unwrap()) && n1(&f.names, &unq))
+		&& c.methods.iter().all(|me| clean(&me.desc) && mname(me.names[0].as_ref().unwrap()) && n1(&me.names, &mname) && me.params.iter().all(|p| n1(&p.names, &unq))))
+}
 fn textual(d: &DDiff) -> bool {
 	keys_distinct(d.classes.iter().map(|c| &c.name)) && d.classes.iter().all(|c| cname(&c.name) && act_all(&c.info, &cname)
 		&& keys_distinct(c.fields.iter().map(|f| (&f.name, &f.desc))) && keys_distinct(c.methods.iter().map(|m| (&m.name, &m.desc)))
@@ -656,7 +672,8 @@ pub fn run(ctx: &Ctx) -> anyhow::Result<Report> {
 	let mut r = Report::new("C04", "C04.Run");
 	r.shard_size = 100;
 	let mut rng = Rng::new(ctx.seed);
-	r.rule = "table: every combination of the 4 actions x target entry {absent, present without name, present with the stated old name, present with another name} at class/field/method/parameter level and the 4 actions x comment {absent, stated old value, other value} at mappings/class/field/method/parameter level on a single-entry tree, each also below an added and below a removed parent; pairs: (A,B) derived from a generated two-namespace ancestor by independent random edits (drop, rename, comment change, add at every level) so that only-A / only-B / both-equal / both-different entries occur at every level, with separate streams violating each hypothesis (absent second-namespace names, first-namespace parameter names, empty comments, differing namespaces); arbitrary: random diffs aimed at a generated target (2 and 3 namespaces, every target namespace incl. the first and an unknown one), consistent or with injected faults; text: printed diffs, the repository's four .tinydiff fixtures, and mutations of both. Oracle on the implementation: apply(diff(A,B),A) equivalent to B, also through print/read_file; result of apply_to equals an independent map-based reference and Err exactly when the reference finds an inconsistency; diff is Err exactly when a needed name is absent; read_file(print(d)) = norm(d). Non-trivial: the call returned Ok on a non-empty tree; distinct by the full input.".into();
+	r.rule = "table: every combination of the 4 actions x target entry {absent, present without name, present with the stated old name, present with another name} at class/field/method/parameter level and the 4 actions x comment {absent, stated old value, other value} at mappings/class/field/method/parameter level on a single-entry tree, each also below an added and below a removed parent; pairs: (A,B) derived from a generated two-namespace ancestor by independent random edits (drop, rename, comment change, add at every level) so that only-A / only-B / both-equal / both-different entries occur at every level, with separate streams violating each hypothesis (absent second-namespace names, first-namespace parameter names, empty comments, differing namespaces); arbitrary: random diffs aimed at a generated target (2 and 3 namespaces, every target namespace incl. the first and an unknown one), consistent or with injected faults; text: printed diffs, the repository's four .tinydiff fixtures, and mutations of both. Oracle on the implementation: apply(diff(A,B),A) equivalent to B, also through print/read_file; result of apply_to equals an independent map-based reference and Err exactly when the reference finds an inconsistency; diff is Err exactly when a needed name is absent; read_file(print(d)) = norm(d). Non-trivial: the call returned Ok on a non-empty tree; distinct by the full input. For every pair the harness also evaluates the theorems' hypotheses (inverse_hyps_b, f3_class, text_hyps_b, f4_class) and Coq evaluates the Gallina booleans on the same pair (part of CPair); inside the hypotheses a failing oracle is always a violation, the known-finding classifiers apply only when f3_class / f4_class is true.".into();
+	r.notes.push("F3 classifier: apply(diff(A,B),A) equals B with every parameter's first-namespace name replaced by A's at the same path (or absent), and B is not of that form; F4 classifier: the diff read back equals norm(diff), direct and through-text results differ, and A or B has an empty comment".into());
 	{
 	let mut run = Run { r: &mut r, tmp: Tmp::new() };
 	let named_ns = cps_str("named");
@@ -747,12 +764,26 @@ pub fn run(ctx: &Ctx) -> anyhow::Result<Report> {
 		run.pair_case("namespace", &dup, &b, true);
 	}
 
+	// the witnesses of the known findings (the same values as f3_A/f3_B and f4_A/f4_B in coq/C04), every run
+	{
+		let ns = vec![cps_str("o"), cps_str("n")];
+		let meth = |params: Vec<MParam>| MMeth { desc: cps_str("()V"), names: vec![Some(cps_str("m")), Some(cps_str("M"))], doc: None, params };
+		let cls = |doc: Option<S>, methods: Vec<MMeth>| MClass { names: vec![Some(cps_str("a")), Some(cps_str("A"))], doc, fields: vec![], methods };
+		let f3_a = MMappings { ns: ns.clone(), doc: None, classes: vec![cls(None, vec![meth(vec![])])] };
+		let f3_b = MMappings { ns: ns.clone(), doc: None, classes: vec![cls(None, vec![meth(vec![MParam { index: 0, names: vec![Some(cps_str("p")), Some(cps_str("x"))], doc: None }])])] };
+		run.pair_case("known-witness", &f3_a, &f3_b, true);
+		let f4_a = MMappings { ns: ns.clone(), doc: None, classes: vec![cls(None, vec![])] };
+		let f4_b = MMappings { ns: ns.clone(), doc: None, classes: vec![cls(Some(vec![]), vec![])] };
+		run.pair_case("known-witness", &f4_a, &f4_b, true);
+		run.pair_case("known-witness", &f4_b, &f4_a, true);
+	}
+
 	// 2. pairs (A,B)
-	let npairs = if ctx.thorough { 3000 } else { 300 };
+	let npairs = if ctx.thorough { 3000 } else { 260 };
 	let base_cfg = |mc: usize| { let mut g = GenCfg::new(2); g.max_classes = mc; g.absent_12 = 0; g };
 	for i in 0..npairs {
 		let kind = i % 10;
-		let mut g = base_cfg(if i % 4 == 0 { 5 } else { 2 });
+		let mut g = base_cfg(if i % 4 == 0 { 4 } else { 2 });
 		let (stream, ecfg) = match kind {
 			0..=5 => ("pair", EditCfg { drop: 20, rename: 30, doc: 30, add: 35, unname: 0, empty_doc: 0, param_src: 0 }),
 			6 => { g.absent_12 = 2; ("pair-unnamed", EditCfg { drop: 20, rename: 30, doc: 30, add: 35, unname: 60, empty_doc: 0, param_src: 0 }) }
@@ -778,10 +809,10 @@ pub fn run(ctx: &Ctx) -> anyhow::Result<Report> {
 	}
 
 	// 3. arbitrary diffs against arbitrary targets
-	let narb = if ctx.thorough { 4000 } else { 400 };
+	let narb = if ctx.thorough { 4000 } else { 340 };
 	for i in 0..narb {
 		let n = if i % 5 == 4 { 3 } else { 2 };
-		let mut g = GenCfg::new(n); g.max_classes = if i % 4 == 0 { 5 } else { 2 }; g.absent_12 = 3;
+		let mut g = GenCfg::new(n); g.max_classes = if i % 4 == 0 { 4 } else { 2 }; g.absent_12 = 3;
 		let t = gen_mappings(&mut rng, &g);
 		let (stream, tns, fault) = match i % 8 {
 			0..=2 => ("arbitrary-consistent", n - 1, 0),
@@ -790,11 +821,26 @@ pub fn run(ctx: &Ctx) -> anyhow::Result<Report> {
 			6 => ("arbitrary-fault", n - 1, 120),
 			_ => ("arbitrary-first-namespace", 0, 0),
 		};
-		let d = gen_diff_for(&mut rng, &t, if tns == 0 { 1 } else { tns }, fault);
+		let mut d = gen_diff_for(&mut rng, &t, if tns == 0 { 1 } else { tns }, fault);
+		if tns == 0 && i % 16 == 7 {
+			// only comment actions and untouched names: consistent with the first namespace as target
+			d.info = Act::None;
+			for c in &mut d.classes { c.info = Act::None; for f in &mut c.fields { f.info = Act::None; } for m in &mut c.methods { m.info = Act::None; for p in &mut m.params { p.info = Act::None; } } }
+			d.classes.retain(|c| t.classes.iter().any(|tc| tc.names[0].as_ref() == Some(&c.name)));
+			for c in &mut d.classes {
+				let tc = t.classes.iter().find(|tc| tc.names[0].as_ref() == Some(&c.name)).unwrap();
+				c.fields.retain(|f| tc.fields.iter().any(|tf| tf.names[0].as_ref() == Some(&f.name) && tf.desc == f.desc));
+				c.methods.retain(|m| tc.methods.iter().any(|tm| tm.names[0].as_ref() == Some(&m.name) && tm.desc == m.desc));
+				for m in &mut c.methods {
+					let tm = tc.methods.iter().find(|tm| tm.names[0].as_ref() == Some(&m.name) && tm.desc == m.desc).unwrap();
+					m.params.retain(|p| tm.params.iter().any(|tp| tp.index == p.index));
+				}
+			}
+		}
 		let nsname = t.ns[tns].clone();
 		let got = run.apply_case(stream, &d, &t, &nsname, true);
 		// untouched entries: a class the diff does not mention is identical afterwards (checked by the reference as well)
-		if let (Some(got), true) = (&got, tns >= 1) {
+		if let Some(got) = &got {
 			for c in &t.classes {
 				if !d.classes.iter().any(|dc| Some(&dc.name) == c.names[0].as_ref()) && !got.classes.contains(c) {
 					run.r.violation("a class the diff does not mention changed".into(), format!("{}{}{}", show_diff(&d), show_mappings(&t), show_mappings(got)));
@@ -819,7 +865,7 @@ pub fn run(ctx: &Ctx) -> anyhow::Result<Report> {
 		texts.push(cps_str(t));
 	}
 	for t in texts.clone() { run.read_case("text-fixed", &t, true); }
-	let nmut = if ctx.thorough { 3000 } else { 300 };
+	let nmut = if ctx.thorough { 3000 } else { 260 };
 	for i in 0..nmut {
 		let mut g = GenCfg::new(2); g.max_classes = 2; g.absent_12 = 2;
 		let t = gen_mappings(&mut rng, &g);
